@@ -3,8 +3,7 @@
 //   sky_solve  kind A perm b y0 x0     real amgcl::solver::skyline_lu<Q>            (kind 0: default Cuthill-McKee ordering,
 //   skyb_solve kind A perm b y0 x0     real skyline_lu<static_matrix<Q,2,2>>         kind 1: ordering class returning `perm`)
 //   inv_dense n A t p                   real amgcl::detail::inverse<Q>(n, A, t, p)
-//   sm_lin N M c a b | sm_mul N P M a b | sm_assoc N P M L a b c | sm_distrib N P M a b c | sm_inner N M x y | sm_inverse N a
-//                                       real amgcl::static_matrix<Q,N,M> operators / math:: functions
+//   (static_matrix ops: harness/h_direct_sm.cpp)
 //   cmk_check rev A perm                real amgcl::reorder::cuthill_mckee<rev>::get   (perm = its output, embedded by generate)
 //   qr_check arith order m n A Qk R     real amgcl::detail::QR<Q|double>::factorize    (Qk, R = its output, embedded by generate)
 //   qr_solve_check arith order m n A b x   real QR<Q|double>::solve                    (x = its output, embedded by generate)
@@ -14,7 +13,7 @@
 // skyline_lu keeps perm/ptr/L/U/D/y private.  They are read (and y is overwritten) through the explicit-instantiation
 // access idiom below, which needs no change of /repo; repo_patches/hook_skyline_access.patch is the add-only friend
 // hook alternative.
-#include "gen.hpp"
+#include "direct_common.hpp"
 #include <amgcl/value_type/static_matrix.hpp>
 #include <amgcl/solver/skyline_lu.hpp>
 #include <amgcl/reorder/cuthill_mckee.hpp>
@@ -54,7 +53,6 @@ typedef amgcl::solver::skyline_lu<B22, given_perm> SkyB1;
 ROB_SKY(SkyQ0) ROB_SKY(SkyQ1) ROB_SKY(SkyB0) ROB_SKY(SkyB1)
 
 // ------------------------------------------------------------------ value-type traits (scalar Q / 2x2 block)
-static bool qeq(const Q &a, const Q &b) { return a.poison == b.poison && (a.poison || a.v == b.v); }
 template <class V> struct VT;
 template <> struct VT<Q> {
     static const int N = 1; typedef Q rhs;
@@ -78,38 +76,6 @@ template <> struct VT<B22> {
     static B21 poison_rhs() { B21 b; b(0) = Q::poisoned(); b(1) = Q::poisoned(); return b; }
     static bool has_poison(const B21 &v) { return v(0).poison || v(1).poison; }
 };
-
-// ------------------------------------------------------------------ exact dense helpers (oracles only)
-// Gaussian elimination with row exchanges: rank of a dense matrix
-static long dense_rank(Dense A) {
-    long m = (long)A.size(), n = m ? (long)A[0].size() : 0, r = 0;
-    for (long c = 0; c < n && r < m; ++c) {
-        long p = -1; for (long i = r; i < m; ++i) if (A[i][c] != 0) { p = i; break; }
-        if (p < 0) continue;
-        std::swap(A[r], A[p]);
-        for (long i = r + 1; i < m; ++i) if (A[i][c] != 0) { Q f = A[i][c] / A[r][c]; for (long j = c; j < n; ++j) A[i][j] -= f * A[r][j]; }
-        ++r;
-    }
-    return r;
-}
-// solve the square nonsingular system M z = f exactly (Gauss-Jordan with row exchanges)
-static bool dense_solve(Dense M, std::vector<Q> f, std::vector<Q> &z) {
-    long n = (long)M.size();
-    for (long c = 0; c < n; ++c) {
-        long p = -1; for (long i = c; i < n; ++i) if (M[i][c] != 0) { p = i; break; }
-        if (p < 0) return false;
-        std::swap(M[c], M[p]); std::swap(f[c], f[p]);
-        for (long i = 0; i < n; ++i) if (i != c && M[i][c] != 0) { Q g = M[i][c] / M[c][c]; for (long j = c; j < n; ++j) M[i][j] -= g * M[c][j]; f[i] -= g * f[c]; }
-    }
-    z.resize(n); for (long i = 0; i < n; ++i) z[i] = f[i] / M[i][i];
-    return true;
-}
-static Dense dtrans(const Dense &A) { size_t m = A.size(), n = m ? A[0].size() : 0; Dense T(n, std::vector<Q>(m)); for (size_t i = 0; i < m; ++i) for (size_t j = 0; j < n; ++j) T[j][i] = A[i][j]; return T; }
-static bool dense_is_identity(const Dense &A) { for (size_t i = 0; i < A.size(); ++i) for (size_t j = 0; j < A[i].size(); ++j) if (A[i][j] != Q(i == j ? 1 : 0)) return false; return true; }
-static bool is_perm(const std::vector<long> &p, long n) {
-    if ((long)p.size() != n) return false; std::vector<char> seen(n, 0);
-    for (long v : p) { if (v < 0 || v >= n || seen[v]) return false; seen[v] = 1; } return true;
-}
 
 // ------------------------------------------------------------------ skyline
 template <class V> struct BMat { long n, m; std::vector<ptrdiff_t> ptr, col; std::vector<V> val; };
@@ -214,92 +180,6 @@ static Result run_sky(Cur &c, long kind) {
     return r;
 }
 
-// ------------------------------------------------------------------ static matrices
-template <int Lo, int Hi, class F> static void dispatch(long n, F &&f) {
-    if constexpr (Lo > Hi) { (void)n; (void)f; throw bad_input("dim"); }
-    else { if (n == Lo) f(std::integral_constant<int, Lo>()); else dispatch<Lo + 1, Hi>(n, f); }
-}
-template <int N, int M> static amgcl::static_matrix<Q,N,M> parse_sm(Cur &c) { amgcl::static_matrix<Q,N,M> a; for (int i = 0; i < N * M; ++i) a(i) = c.rat(); return a; }
-template <int N, int M> static void print_sm(Line &l, const amgcl::static_matrix<Q,N,M> &a) { for (int i = 0; i < N * M; ++i) l << a(i); }
-template <int N, int M> static bool sm_eq(const amgcl::static_matrix<Q,N,M> &a, const amgcl::static_matrix<Q,N,M> &b) { for (int i = 0; i < N * M; ++i) if (!qeq(a(i), b(i))) return false; return true; }
-template <int N, int M> static Dense sm_dense(const amgcl::static_matrix<Q,N,M> &a) { Dense D(N, std::vector<Q>(M)); for (int i = 0; i < N; ++i) for (int j = 0; j < M; ++j) D[i][j] = a(i, j); return D; }
-template <int N, int M> static bool sm_eq_dense(const amgcl::static_matrix<Q,N,M> &a, const Dense &D) { for (int i = 0; i < N; ++i) for (int j = 0; j < M; ++j) if (!qeq(a(i,j), D[i][j])) return false; return true; }
-
-static Result run_sm(const std::string &op, Cur &c) {
-    Result r; r.nontrivial = true; r.tag(op);
-    namespace m = amgcl::math;
-    if (op == "sm_lin") {
-        long N = c.nat(), M = c.nat();
-        dispatch<1,4>(N, [&](auto n_) { dispatch<1,4>(M, [&](auto m_) {
-            constexpr int N = decltype(n_)::value, M = decltype(m_)::value; typedef amgcl::static_matrix<Q,N,M> SM;
-            Q s = c.rat(); SM a = parse_sm<N,M>(c), b = parse_sm<N,M>(c); c.expect_end();
-            SM sum = a + b, dif = a - b, sc = s * a, ng = -a; auto ad = m::adjoint(a); bool z = m::is_zero(a); Q nrm = m::norm(a);
-            for (int i = 0; i < N; ++i) for (int j = 0; j < M; ++j) {
-                if (!qeq(sum(i,j), a(i,j) + b(i,j))) r.fail("a+b entrywise"); if (!qeq(dif(i,j), a(i,j) - b(i,j))) r.fail("a-b entrywise");
-                if (!qeq(sc(i,j), s * a(i,j))) r.fail("c*a entrywise"); if (!qeq(ng(i,j), Q(0) - a(i,j))) r.fail("-a entrywise");
-                if (!qeq(ad(j,i), a(i,j))) r.fail("adjoint entrywise"); }
-            if (!sm_eq(sum - b, a)) r.fail("(a+b)-b != a"); if (!sm_eq(m::adjoint(ad), a)) r.fail("adjoint(adjoint(a)) != a");
-            if (!sm_eq(s * (a + b), s * a + s * b)) r.fail("c*(a+b) != c*a + c*b"); if (!sm_eq(a + b, b + a)) r.fail("a+b != b+a");
-            if (!sm_eq(a + ng, m::zero<SM>())) r.fail("a + (-a) != 0");
-            Q fro(0); for (int i = 0; i < N * M; ++i) fro += a(i) * a(i); if (!qeq(nrm, vq::sqrt(fro))) r.fail("norm != sqrt(sum a_i^2)");
-            Line l; print_sm(l, sum); print_sm(l, dif); print_sm(l, sc); print_sm(l, ng); print_sm(l, ad); l << z << nrm; r.out = l.get();
-        }); });
-    } else if (op == "sm_mul") {
-        long N = c.nat(), P = c.nat(), M = c.nat();
-        dispatch<1,4>(N, [&](auto n_) { dispatch<1,4>(P, [&](auto p_) { dispatch<1,4>(M, [&](auto m_) {
-            constexpr int N = decltype(n_)::value, P = decltype(p_)::value, M = decltype(m_)::value;
-            auto a = parse_sm<N,P>(c); auto b = parse_sm<P,M>(c); c.expect_end();
-            auto ab = a * b; auto abt = m::adjoint(ab);
-            if (!sm_eq_dense(ab, dmul(sm_dense(a), sm_dense(b)))) r.fail("a*b != dense product");
-            if (!sm_eq(abt, m::adjoint(b) * m::adjoint(a))) r.fail("(ab)^T != b^T a^T");
-            if constexpr (N == P) if (!sm_eq(m::identity<amgcl::static_matrix<Q,N,N>>() * b, b)) r.fail("I*b != b");
-            if constexpr (P == M) if (!sm_eq(a * m::identity<amgcl::static_matrix<Q,M,M>>(), a)) r.fail("a*I != a");
-            Line l; print_sm(l, ab); print_sm(l, abt); r.out = l.get();
-        }); }); });
-    } else if (op == "sm_assoc") {
-        long N = c.nat(), P = c.nat(), M = c.nat(), L = c.nat();
-        auto body = [&](auto n_, auto p_, auto m_, auto l_) {
-            constexpr int N = decltype(n_)::value, P = decltype(p_)::value, M = decltype(m_)::value, L = decltype(l_)::value;
-            auto a = parse_sm<N,P>(c); auto b = parse_sm<P,M>(c); auto d = parse_sm<M,L>(c); c.expect_end();
-            auto lhs = (a * b) * d; auto rhs = a * (b * d);
-            if (!sm_eq(lhs, rhs)) r.fail("(ab)c != a(bc)");
-            Line l; print_sm(l, lhs); print_sm(l, rhs); r.out = l.get();
-        };
-        if (N == 4 && P == 4 && M == 4 && L == 4) { std::integral_constant<int,4> f; body(f, f, f, f); }
-        else dispatch<1,3>(N, [&](auto n_) { dispatch<1,3>(P, [&](auto p_) { dispatch<1,3>(M, [&](auto m_) { dispatch<1,3>(L, [&](auto l_) { body(n_, p_, m_, l_); }); }); }); });
-    } else if (op == "sm_distrib") {
-        long N = c.nat(), P = c.nat(), M = c.nat();
-        dispatch<1,4>(N, [&](auto n_) { dispatch<1,4>(P, [&](auto p_) { dispatch<1,4>(M, [&](auto m_) {
-            constexpr int N = decltype(n_)::value, P = decltype(p_)::value, M = decltype(m_)::value;
-            auto a = parse_sm<N,P>(c); auto b = parse_sm<P,M>(c); auto d = parse_sm<P,M>(c); c.expect_end();
-            auto l1 = a * (b + d); auto r1 = a * b + a * d; auto l2 = a * (b - d);
-            if (!sm_eq(l1, r1)) r.fail("a(b+c) != ab+ac"); if (!sm_eq(l2, a * b - a * d)) r.fail("a(b-c) != ab-ac");
-            if (!sm_eq(m::adjoint(b + d), m::adjoint(b) + m::adjoint(d))) r.fail("(b+c)^T != b^T + c^T");
-            Line l; print_sm(l, l1); print_sm(l, r1); print_sm(l, l2); r.out = l.get();
-        }); }); });
-    } else if (op == "sm_inner") {
-        long N = c.nat(), M = c.nat();
-        dispatch<1,4>(N, [&](auto n_) { dispatch<1,4>(M, [&](auto m_) {
-            constexpr int N = decltype(n_)::value, M = decltype(m_)::value;
-            auto x = parse_sm<N,M>(c); auto y = parse_sm<N,M>(c); c.expect_end();
-            auto xty = m::adjoint(x) * y;
-            if constexpr (M == 1) { Q ip = m::inner_product(x, y); if (!qeq(ip, xty(0,0))) r.fail("inner_product != x^T y"); r.out = (Line() << ip).get(); }
-            else { auto ip = m::inner_product(x, y); if (!sm_eq(ip, xty)) r.fail("inner_product != x^T y"); Line l; print_sm(l, ip); r.out = l.get(); }
-        }); });
-    } else if (op == "sm_inverse") {
-        long N = c.nat();
-        dispatch<1,4>(N, [&](auto n_) {
-            constexpr int N = decltype(n_)::value; typedef amgcl::static_matrix<Q,N,N> SM;
-            SM a = parse_sm<N,N>(c); c.expect_end();
-            if (dense_rank(sm_dense(a)) < N) { r.out = "singular"; r.tag("singular"); return; }
-            SM ia = m::inverse(a);
-            if (!sm_eq(a * ia, m::identity<SM>())) r.fail("a * inverse(a) != I"); if (!sm_eq(ia * a, m::identity<SM>())) r.fail("inverse(a) * a != I");
-            Line l; print_sm(l, ia); r.out = l.get();
-        });
-    }
-    return r;
-}
-
 // ------------------------------------------------------------------ QR
 template <class T> struct QRout { std::vector<T> Qk, R, Qtail; };
 template <class T> static QRout<T> qr_factorize(long order, long m, long n, const std::vector<T> &Arm) {
@@ -326,7 +206,6 @@ static std::vector<Q> from_double(const std::vector<double> &v) { std::vector<Q>
 static bool dyadic_exact(const std::vector<Q> &v) { for (auto &x : v) if (Q(x.v.get_d()).v != x.v) return false; return true; }
 static Q qabs(const Q &a) { return a.v < 0 ? -a : a; }
 static const Q TOL = Q::frac(1, 1L << 28);
-static Dense rm_dense(long m, long n, const std::vector<Q> &a) { Dense D(m, std::vector<Q>(n)); for (long i = 0; i < m; ++i) for (long j = 0; j < n; ++j) D[i][j] = a[i * n + j]; return D; }
 static Q max_abs_diff(const Dense &A, const Dense &B) { Q d(0); for (size_t i = 0; i < A.size(); ++i) for (size_t j = 0; j < A[i].size(); ++j) { Q e = qabs(A[i][j] - B[i][j]); if (e > d) d = e; } return d; }
 static Dense dident(long k) { Dense I(k, std::vector<Q>(k)); for (long i = 0; i < k; ++i) I[i][i] = Q(1); return I; }
 
@@ -454,8 +333,6 @@ static Result execute(const Toks &t) {
         for (long i = 0; i < n * n; ++i) if (!qeq(A2[i], A1[i])) { r.fail("result depends on the old content of the workspaces t / p"); break; }
         bool pivoted = false; for (long i = 0; i < n; ++i) if (p1[i] != i) pivoted = true; if (pivoted) r.tag("row_exchange");
         Line l; l << A1 << t1; l << (size_t)n; for (int v : p1) l << (long)v; r.out = l.get();
-    } else if (op.rfind("sm_", 0) == 0 && (op == "sm_lin" || op == "sm_mul" || op == "sm_assoc" || op == "sm_distrib" || op == "sm_inner" || op == "sm_inverse")) {
-        return run_sm(op, c);
     } else if (op == "cmk_check") {
         long rev = c.nat(); auto A = c.mat(); auto perm = c.natvec(); c.expect_end();
         std::string why; if (rev < 0 || rev > 1 || A.n < 1 || A.m != A.n || !crs_wf(*A.crs(), why)) throw bad_input("shape");
@@ -578,8 +455,6 @@ static void emit_qr_solve(std::vector<std::string> &lines, long arith, long orde
 }
 static std::vector<Q> transpose_rm(long m, long n, const std::vector<Q> &A) { std::vector<Q> T(m * n); for (long i = 0; i < m; ++i) for (long j = 0; j < n; ++j) T[j * m + i] = A[i * n + j]; return T; }
 
-template <int N, int M> static void put_sm_random(Rng &rng, Line &l, int zero_pct = 15) { for (int i = 0; i < N * M; ++i) l << (rng.range(0, 99) < zero_pct ? Q(0) : rng.rat(5)); }
-static void put_rats(Rng &rng, Line &l, long cnt, int zero_pct = 15) { for (long i = 0; i < cnt; ++i) l << (rng.range(0, 99) < zero_pct ? Q(0) : rng.rat(5)); }
 
 static void generate(Rng &rng, const Opts &o, std::vector<std::string> &lines) {
     const bool T = o.thorough();
@@ -637,18 +512,6 @@ static void generate(Rng &rng, const Opts &o, std::vector<std::string> &lines) {
         std::vector<long> p(n); for (auto &v : p) v = rng.range(0, 40);
         Line l; l << "inv_dense" << n << A << gen_vec(rng, n * n) << p; lines.push_back(l.get());
     }
-    // ---- static_matrix
-    for (long k = 0; k < 60 * scale; ++k) {
-        long N = rng.range(1, 4), P = rng.range(1, 4), M = rng.range(1, 4), L4 = rng.range(1, 4);
-        { Line l; l << "sm_lin" << N << M << rng.rat(4); put_rats(rng, l, 2 * N * M); lines.push_back(l.get()); }
-        { Line l; l << "sm_mul" << N << P << M; put_rats(rng, l, N * P + P * M); lines.push_back(l.get()); }
-        { long a = N, b = P, cc = M, d = L4; if (rng.coin(1, 5)) a = b = cc = d = 4; else { a = rng.range(1, 3); b = rng.range(1, 3); cc = rng.range(1, 3); d = rng.range(1, 3); }
-          Line l; l << "sm_assoc" << a << b << cc << d; put_rats(rng, l, a * b + b * cc + cc * d); lines.push_back(l.get()); }
-        { Line l; l << "sm_distrib" << N << P << M; put_rats(rng, l, N * P + 2 * P * M); lines.push_back(l.get()); }
-        { Line l; l << "sm_inner" << N << M; put_rats(rng, l, 2 * N * M); lines.push_back(l.get()); }
-        { std::vector<Q> A(N * N); for (int tries = 0; tries < 50; ++tries) { for (auto &x : A) x = rng.coin(1, 4) ? Q(0) : rng.rat(5); if (dense_rank(rm_dense(N, N, A)) == N) break; for (long i = 0; i < N; ++i) A[i * N + i] += Q(7); }
-          if (dense_rank(rm_dense(N, N, A)) == N) { Line l; l << "sm_inverse" << N; for (auto &v : A) l << v; lines.push_back(l.get()); } }
-    }
     // ---- QR
     for (long k = 0; k < 40 * scale; ++k) {
         long mx = T ? 12 : 8; long m = rng.range(1, mx), n = rng.range(1, mx), order = rng.range(0, 1);
@@ -678,8 +541,6 @@ static void generate(Rng &rng, const Opts &o, std::vector<std::string> &lines) {
     lines.push_back("sky_solve 0 2 2 1 0 1 1 1 1 2 0 1 1 1 2 0 0 2 0 0");                // b too short
     lines.push_back("skyb_solve 1 1 1 1 0 1 0 0 1 1 0 1 1 2 1 0 0 1 0");                 // x0 too short (1 block needs 2 entries)
     lines.push_back("inv_dense 2 4 1 2 3 4 3 0 0 0 2 0 0");                               // t too short
-    lines.push_back("sm_mul 5 1 1 1 1 1 1 1");                                            // dimension out of range
-    lines.push_back("sm_lin 2 2 1 1 2 3 4 1 2 3");                                        // too few entries
     lines.push_back("cmk_check 0 2 3 1 0 1 1 1 1 2 0 1");                                 // not square
     lines.push_back("qr_check 0 0 2 2 1 0 0 1 1 0 0 1 1 0 0");                            // too few entries
 }
